@@ -4,10 +4,15 @@ from harness import worlds, ndefflow
 PROPERTY = "C01"
 
 
-def t2(sx, S, prefix, rsv, oldlens, lens, long, nxp=None):
+def t2(sx, S, prefix, rsv, oldlens, lens, long, nxp=None, rsv_on_len=False, plen=(), concrete=False):
     oldlen = sx.pick("oldlen", oldlens)
     w = worlds.T2World(sx, S, prefix, [tuple(r) for r in rsv], oldlen,
-                       old_lt_80=long, nxp=nxp)
+                       old_lt_80=long, nxp=nxp, rsv_on_len=rsv_on_len, plen=plen,
+                       symbolic_window=(0, 0) if concrete else None)
+    if w.hdr_rsv:
+        # reserved bytes between the T, L and V bytes of a TLV or inside a
+        # TLV that is jumped over: labels of their own (known finding)
+        w.kind += "+rsv-in-tlv-header"
     if nxp is not None:
         sx.reach("nxp_vendor_class")
     w.long_trick = long
@@ -15,10 +20,14 @@ def t2(sx, S, prefix, rsv, oldlens, lens, long, nxp=None):
     return ndefflow.roundtrip(sx, w, n)
 
 
-def t1(sx, hr, size, prefix, rsv, oldlens, lens, long):
+def t1(sx, hr, size, prefix, rsv, oldlens, lens, long, rsv_on_len=False, plen=(), concrete=False):
     oldlen = sx.pick("oldlen", oldlens)
     w = worlds.T1World(sx, tuple(hr), size, prefix, [tuple(r) for r in rsv], oldlen,
-                       old_lt_80=long, phys=512 if size == 296 else None)
+                       old_lt_80=long, phys=512 if size == 296 else None,
+                       rsv_on_len=rsv_on_len, plen=plen,
+                       symbolic_window=(0, 0) if concrete else None)
+    if w.hdr_rsv:
+        w.kind += "+rsv-in-tlv-header"
     w.long_trick = long
     n = sx.pick("n", [x for x in lens_for(w.cap, lens)])
     return ndefflow.roundtrip(sx, w, n)
@@ -86,6 +95,24 @@ def partitions(tier):
         parts.append(dict(name="t2:48:%s:%d:sep" % (prefix or "-", i), fn="t2",
                           params=dict(S=48, prefix=prefix, rsv=rsv, oldlens=olds,
                                       lens=lens, long=True)))
+    # a reserved range that separates the NDEF TLV's T, L and V bytes
+    # (TL: known finding, previous contents concrete so that the misread
+    # length does not multiply the paths)
+    for nm, rsv in (("TL", (22, 1)), ("LV", (23, 2))):
+        parts.append(dict(name="t2:48:M:lenrsv:%s" % nm, fn="t2",
+                          params=dict(S=48, prefix="M", rsv=[rsv], oldlens=[0, 3] if nm == "LV" else [3],
+                                      lens=[0, 1, 5, "cap", "cap+1"] if nm == "LV" else [1],
+                                      long=True, rsv_on_len=True, concrete=nm == "TL")))
+    # proprietary TLVs (FDh) in front of the NDEF TLV; the last one with a
+    # reserved range inside its value field
+    for nm, prefix, rsv, plen in (("P0", "P", [], [0]), ("P3", "P", [], [3]), ("NPN", "NPN", [], [2]),
+                                  ("PP", "PP", [], [1, 5]), ("LP", "LP", [(64, 2)], [4]),
+                                  ("MP-rsv", "MP", [(24, 2)], [4])):
+        known = nm == "MP-rsv"
+        parts.append(dict(name="t2:48:prop:%s" % nm, fn="t2",
+                          params=dict(S=48, prefix=prefix, rsv=rsv, plen=plen, oldlens=[3] if known else [0, 3],
+                                      lens=[1] if known else [0, 1, 5, "cap", "cap+1"], long=True,
+                                      rsv_on_len=True, concrete=known)))
     for S in ([496] if tier == "quick" else [496, 872, 2032]):
         for prefix, rsv in [("", []), ("L", [(896 if S == 872 else 16 + S, (S - 48 + 63) // 64)]),
                             ("NM", [(320, 8)])]:
@@ -138,6 +165,16 @@ def partitions(tier):
           # 257 / 258 bytes left for the NDEF TLV (capacity calculation edge)
           ("dyn296:NNN", (0x13, 0x00), 296, "NNN", []),
           ("dyn296:NN", (0x13, 0x00), 296, "NN", [])]
+    # proprietary TLVs on Type 1; on a dynamic tag one that ends right in
+    # front of the reserved blocks 104..127 (NDEF TLV T at 103, L at 128) and
+    # one that spans them
+    for nm, hr, size, plen in (("static:P2", (0x11, 0x48), 120, [2]), ("dyn:P2", (0x12, 0x4C), 512, [2]),
+                               ("dyn:P89", (0x12, 0x4C), 512, [89]), ("dyn:P95", (0x12, 0x4C), 512, [95])):
+        known = plen[0] > 80
+        parts.append(dict(name="t1:prop:%s" % nm, fn="t1",
+                          params=dict(hr=hr, size=size, prefix="P", rsv=[], plen=plen, oldlens=[5] if known else [0, 5],
+                                      lens=[1] if known else [0, 1, 9, "cap", "cap+1"], long=True,
+                                      rsv_on_len=True, concrete=known)))
     for name, hr, size, prefix, rsv in T1:
         parts.append(dict(name="t1:%s:free" % name, fn="t1",
                           params=dict(hr=hr, size=size, prefix=prefix, rsv=rsv, oldlens=[0, 2],
